@@ -1,7 +1,6 @@
 /-
   C07 — invariant of the table of base classes built by the model, and the main collection theorem:
-  `_collect_base_attrs` on that table = the Spec's declarative inherited block, unless a plain class
-  re-exports a distant attrs class (K07a).
+  `_collect_base_attrs` on that table = the Spec's declarative inherited block.
 -/
 import AttrsModel.Proofs.C07Table
 
@@ -99,57 +98,31 @@ theorem specFinalOwn_plain {cs : List Cls} {m : Nat} (h : isAttrsCls cs m = fals
 
 /-- the blocks exposed by the model's table are `Good` -/
 theorem good_of_inv {cs : List Cls} {tbl : Table} (taken : List String) (hinv : TInv cs tbl)
-    (hmro : ∀ m, m < tbl.length → (mroOf cs m).head? = some m ∧ ∀ m' ∈ mroOf cs m, m' < tbl.length)
-    (ms : List Nat) (hms : ∀ m ∈ ms, m < tbl.length) (hstray : strayPlain cs ms = false) :
+    (ms : List Nat) (hms : ∀ m ∈ ms, m < tbl.length) :
     Good (expose (mroOf cs) tbl taken) (Dspec cs taken) (isAttrsCls cs) ms := by
   induction ms with
   | nil => trivial
   | cons m rest ih =>
-    simp only [strayPlain, Bool.or_eq_false_iff] at hstray
     have hm := hms m List.mem_cons_self
-    refine ⟨?_, ih (fun x hx => hms x (List.mem_cons_of_mem _ hx)) hstray.2⟩
-    obtain ⟨hhead, hall⟩ := hmro m hm
+    refine ⟨?_, ih (fun x hx => hms x (List.mem_cons_of_mem _ hx))⟩
     rcases hinv m hm with ⟨h1, h2⟩ | ⟨T, h1, h2, h3⟩
-    · -- plain class: attribute lookup along its own MRO
+    · -- plain class: owns no tuple
       simp only [h2, Bool.false_eq_true, if_false]
-      refine ⟨?_, by simp [Dspec, specFinalOwn_plain h2]⟩
-      have hs : firstAttrs cs (mroOf cs m) = firstAttrs cs rest := by
-        have := hstray.1
-        simp only [h2, Bool.not_false, Bool.true_and, bne_eq_false_iff_eq] at this
-        exact this
-      rw [nextBlock_eq_find]
-      simp only [expose, getattrAttrs, findSome_tbl hinv _ hall]
-      simp only [firstAttrs] at hs
-      rw [hs]
-      cases hf : rest.find? (isAttrsCls cs) with
-      | none => simp
-      | some j =>
-        have hj : j ∈ rest := List.mem_of_find?_eq_some hf
-        have hjA : isAttrsCls cs j = true := by simpa using List.find?_some hf
-        rcases hinv j (hms j (List.mem_cons_of_mem _ hj)) with ⟨_, g2⟩ | ⟨Tj, g1, _, g3⟩
-        · simp [hjA] at g2
-        · simp only [Option.bind_some, g1, Option.join_some]
-          exact expose_of_entry g3
+      exact ⟨by simp [expose, ownTuple, h1], by simp [Dspec, specFinalOwn_plain h2]⟩
     · simp only [h2, if_true]
-      have hcons : ∃ tl, mroOf cs m = m :: tl := by
-        cases hq : mroOf cs m with
-        | nil => simp [hq] at hhead
-        | cons x tl => simp only [hq, List.head?_cons, Option.some.injEq] at hhead; exact ⟨tl, by rw [hhead]⟩
-      obtain ⟨tl, htl⟩ := hcons
-      simp only [expose, getattrAttrs, htl, List.findSome?_cons, h1, Option.join_some]
+      simp only [expose, ownTuple, h1, Option.join_some]
       exact expose_of_entry h3
 
 /-- **main collection theorem**: on the model's table, gather + keep-last is the declarative rule -/
 theorem collectMro_eq_spec {cs : List Cls} {tbl : Table} (taken : List String) (hinv : TInv cs tbl)
-    (hmro : ∀ m, m < tbl.length → (mroOf cs m).head? = some m ∧ ∀ m' ∈ mroOf cs m, m' < tbl.length)
     (hnodup : ∀ m, (names (specFinalOwn cs m)).Nodup)
-    (ms : List Nat) (hms : ∀ m ∈ ms, m < tbl.length) (hstray : strayPlain cs ms = false) :
+    (ms : List Nat) (hms : ∀ m ∈ ms, m < tbl.length) :
     collectMro (mroOf cs) tbl taken ms = specInh cs taken [] ms := by
   rw [specInh_nil_eq_Ss, collectMro, mroGather, keepLast_flatMap_reverse]
   apply Rr_eq_Ss _ _ (isAttrsCls cs)
   · intro m
     simp only [Dspec, names_map_inherit]
     exact List.Nodup.sublist (List.Sublist.map _ List.filter_sublist) (hnodup m)
-  · exact good_of_inv taken hinv hmro ms hms hstray
+  · exact good_of_inv taken hinv ms hms
 
 end Attrs.C07
